@@ -154,7 +154,8 @@ def bounded(tier, seed):
             if want_valid:
                 nontrivial.add((s, tuple(desc["plan"])))
             if got_valid != want_valid:
-                failures.append({"what": f"seed {s}: validator says {res.status.name} but the plan is {'valid' if want_valid else 'invalid'}",
+                tag = f" [{SC.STATIC_TAG}]" if want_valid and any(SC.static_conflict_after_grounding(pr, a_, ps_) for a_, ps_ in plan) else ""
+                failures.append({"what": f"seed {s}: validator says {res.status.name} but the plan is {'valid' if want_valid else 'invalid'}{tag}",
                                  "concrete": desc, "observed": str(res.status)})
                 break
             if not got_valid and res.reason is None:
